@@ -1239,14 +1239,18 @@ import (
 // next character as Symbol), with that symbol's type and text, consuming exactly that many characters - also
 // on a second pass over the same table (reading other symbols must not alter the text of existing ones).
 func TestVerifReplay(t *testing.T) {
-	abc := []rune{'<', '=', '>'}
+	// the same over symbols made of characters above U+00FF (the child tables of the nodes keep those in their interval list)
+	for _, abc := range [][]rune{{'<', '=', '>'}, {0x2264, 0x2265, '='}} { runSymbols(t, abc) }
+}
+
+func runSymbols(t *testing.T, abc []rune) {
 	var syms []string
 	var gs func(cur []rune, n int)
 	gs = func(cur []rune, n int) { if len(cur) > 0 { syms = append(syms, string(cur)) }; if n == 0 { return }; for _, c := range abc { gs(append(cur, c), n-1) } }
 	gs(nil, 3)
 	var inputs []string
 	var gi func(cur []rune, n int)
-	gi = func(cur []rune, n int) { if len(cur) > 0 { inputs = append(inputs, string(cur)) }; if n == 0 { return }; for _, c := range []rune{'<', '=', '>', 'a'} { gi(append(cur, c), n-1) } }
+	gi = func(cur []rune, n int) { if len(cur) > 0 { inputs = append(inputs, string(cur)) }; if n == 0 { return }; for _, c := range append(append([]rune{}, abc...), 'a') { gi(append(cur, c), n-1) } }
 	gi(nil, %(inlen)d)
 	check := func(reg []string) {
 		st := NewGenericSymbolState()
@@ -1322,7 +1326,7 @@ class SymbolFamily(Family):
     @classmethod
     def bounded_source(cls, prog, fname):
         return ('tokenizers/generic', cls.source(),
-                'symbol sets of size <= 3 (length 1..3 over {<,=,>}, every order; third symbol sampled every 11th; the table is exercised after every single registration) x inputs up to length 4 over {<,=,>,a}, two passes')
+                'symbol sets of size <= 3 (length 1..3 over {<,=,>} and over {U+2264,U+2265,=}, every order; third symbol sampled every 11th; the table is exercised after every single registration) x inputs up to length 4 over {<,=,>,a}, two passes')
 
 
 QUOTE_TEST = '''package csv_test
@@ -1434,7 +1438,8 @@ func TestVerifReplay(t *testing.T) {
 	var gen func(cur []rune, n int)
 	gen = func(cur []rune, n int) { inputs = append(inputs, string(cur)); if n == 0 { return }; for _, c := range alphabet { gen(append(cur, c), n-1) } }
 	gen(nil, %(maxlen)d)
-	inputs = append(inputs, "1 /*c*/ 2", "a /*c*/ /*d*/  b", "1\\U0001F600\\U0001F600 2", "'x' \\"y\\" 1.5 2", "a  /*c*/  b 'q''r'", "1 /** d **/ 2 /***/ 3", "a /* x **/ b */ c", "'' + \\"\\" 1", "a{{\\U00010000a}} b", "x \\"}}\\" y", "{{ \\"}}\\" x }} y {{ '}}}' }}")
+	inputs = append(inputs, "1 /*c*/ 2", "a /*c*/ /*d*/  b", "1\\U0001F600\\U0001F600 2", "'x' \\"y\\" 1.5 2", "a  /*c*/  b 'q''r'", "1 /** d **/ 2 /***/ 3", "a /* x **/ b */ c", "'' + \\"\\" 1", "a{{\\U00010000a}} b", "x \\"}}\\" y", "{{ \\"}}\\" x }} y {{ '}}}' }}",
+		"{{\\U0001F600! a b }}x", "{{ \\uffff ! a 'b }}x", "{{ '!' a b }}x", "{{! it's }} {{ ! \\U0001F600 \\"q }}y", "1e5 2E-3 3e 4.5e+6x")
 	for name, mk := range mks {
 		quoteState := mk().QuoteState()
 		for _, in := range inputs {
@@ -2706,7 +2711,8 @@ func isPunct(l lx) bool { return l.typ == tokenizers.Symbol && (l.s == "(" || l.
 
 func TestVerifReplay(t *testing.T) {
 	W, I, F, Q, S, K, C := tokenizers.Word, tokenizers.Integer, tokenizers.Float, tokenizers.Quoted, tokenizers.Symbol, tokenizers.Keyword, tokenizers.Comment
-	genericPool := []lx{{"abc", W}, {"x_1", W}, {"éa", W}, {"юж", W}, {"naÿve", W}, {"ÿÀ", W}, {"12", I}, {"-7", I}, {"1.5", F}, {"-0.25", F}, {"'a b'", Q}, {"\"q'r\"", Q},
+	// (a number ends at the first character that is not an ASCII digit: Arabic-Indic, Devanagari and fullwidth digits are word characters)
+	genericPool := []lx{{"\u0663x", W}, {"\uff15", W}, {"abc", W}, {"x_1", W}, {"éa", W}, {"юж", W}, {"naÿve", W}, {"ÿÀ", W}, {"12", I}, {"-7", I}, {"1.5", F}, {"-0.25", F}, {"'a b'", Q}, {"\"q'r\"", Q},
 		{"<=", S}, {"<>", S}, {">=", S}, {"<", S}, {"(", S}, {")", S}, {",", S}, {"+", S}, {"=", S}}
 	exprPool := []lx{{"abc", W}, {"x_1", W}, {"éa", W}, {"ÿzÀ", W}, {"/** d **/", C}, {"/* a*b **/", C}, {"/***/", C}, {"AND", K}, {"and", K}, {"Not", K}, {"nULL", K}, {"is", K}, {"IN", K}, {"like", K}, {"TRUE", K}, {"xor", K},
 		{"12", I}, {"1.5", F}, {"1e3", F}, {"2.5E-2", F}, {"'it''s'", Q}, {"'a\nb ю'", Q}, {"\"q\"\"r\"", W},
@@ -2736,6 +2742,15 @@ func TestVerifReplay(t *testing.T) {
 	}
 	run("generic", func() tokenizers.ITokenizer { return generic.NewGenericTokenizer() }, genericPool, @L@)
 	run("expression", func() tokenizers.ITokenizer { return ctok.NewExpressionTokenizer() }, exprPool, @L@)
+	// a number ends at the first character that is not an ASCII digit, also when a digit of another script follows at once
+	abut := func(name string, tk tokenizers.ITokenizer, text string, want []lx) {
+		if got := classes(tk.TokenizeBuffer(text)); !same2(got, want) { t.Errorf("%s tokenizer: %q gives %v, the lexemes are %v", name, text, got, want) }
+	}
+	abut("generic", generic.NewGenericTokenizer(), "7\u0663x", []lx{{"7", I}, {"\u0663x", W}})
+	abut("generic", generic.NewGenericTokenizer(), "-1.5\uff15", []lx{{"-1.5", F}, {"\uff15", W}})
+	abut("expression", ctok.NewExpressionTokenizer(), "12\u0663", []lx{{"12", I}, {"\u0663", S}})
+	abut("expression", ctok.NewExpressionTokenizer(), "2e5\uff15", []lx{{"2e5", F}, {"\uff15", S}})
+	abut("expression", ctok.NewExpressionTokenizer(), "3E-\u0967", []lx{{"3", I}, {"E", W}, {"-", S}, {"\u0967", S}})
 }
 '''
 
@@ -2996,7 +3011,7 @@ func TestVerifReplay(t *testing.T) {
 	}
 	managers := []variants.IVariantOperations{variants.NewTypeUnsafeVariantOperations(), variants.NewTypeSafeVariantOperations()}
 	fns := functions.NewDefaultFunctionCollection()
-	spaces := []func() string{func() string { return "" }, func() string { return []string{"", " ", "  ", "\t", " /* c */ ", "\n"}[rng.Intn(6)] }}
+	spaces := []func() string{func() string { return "" }, func() string { return []string{"", " ", "  ", "\t", " /* c */ ", "\n", " /** d **/ ", "/***/", " /* a*b **/\t"}[rng.Intn(9)] }}
 	bad := 0
 	for _, tr := range trees {
 		for vi, full := range []bool{false, true} {
